@@ -33,8 +33,55 @@ def m_factory():
 M_WIT = ["order_record", "cancel_record", "fill_record", "multi_fill_records", "expiry_record", "expiry_record_sell_side"]
 
 
+# ------------------------------------------------------------------------------------------------
+# the logger's own write / flush path: every number of pending records
+
+
+def flush_cases(tier):
+    top = 2600 if tier == "quick" else 10400
+    step = 50
+    for lo in range(0, top, step):
+        yield (lo, min(lo + step, top))
+
+
+def flush_fn(case, wit):
+    """for every k in the range: k records written to a logger, then one flush: the logger's process() receives exactly
+    those k records, once each, in the order written (however it chooses to batch them), and nothing stays pending"""
+    from ..common import Violation
+    from pams.logs.base import Logger, OrderLog
+    from pams.order import LIMIT_ORDER
+    lo, hi = case
+
+    class Rec(Logger):
+        def __init__(self):
+            super().__init__()
+            self.seen = []
+
+        def process(self, logs):
+            self.seen.extend(logs)
+    pool = [OrderLog(order_id=i, market_id=0, time=0, agent_id=0, is_buy=True, kind=LIMIT_ORDER, volume=1, price=100.0, ttl=None) for i in range(hi)]
+    for k in range(lo, hi):
+        lg = Rec()
+        for l in pool[:k]:
+            lg.write(l)
+        lg._process()
+        if [id(x) for x in lg.seen] != [id(x) for x in pool[:k]]:
+            raise Violation("C10.flush_count", "after writing k records and one flush the logger has not processed exactly those k records once each in order",
+                            "k=%d: processed %d records%s" % (k, len(lg.seen), " (some twice)" if len(set(map(id, lg.seen))) < len(lg.seen) else ""))
+        lg._process()
+        if len(lg.seen) != k:
+            raise Violation("C10.flush_count", "a second flush with nothing written in between delivered records again", "k=%d" % k)
+        wit.inc("flush_sizes")
+    return (lo // 1000,)
+
+
 def run(tier, seed):
     res = run_r("C10", tier, seed, scenarios(tier), [acc_C10], 2 if tier == "quick" else 3, on_exc, WIT, RULE)
+    from ..enum_f import run_grid
+    ev0, dn0 = res.coverage["evaluations"], res.coverage["distinct_nontrivial"]
+    run_grid(res, "pending_records_at_a_flush", list(flush_cases(tier)), flush_fn, seed)
+    res.coverage["evaluations"], res.coverage["distinct_nontrivial"] = ev0 + res.coverage["witness_classes"].get("flush_sizes", 0), dn0
+    res.require_witness(["flush_sizes"])
     from ..families import cross_family
     run_r("C10", tier, seed, cross_family(tier, with_no_logger=False), [acc_C10], 1, on_exc, [], RULE, res=res, label="cross_family", split=0)
     # market-level half on Engine M: what the logger receives during each single market operation
@@ -47,6 +94,16 @@ def run(tier, seed):
 
 
 def replay(payload):
+    if payload.get("engine") == "F":
+        from ..common import Violation, Counter
+        try:
+            flush_fn(tuple(payload["case"]), Counter())
+        except Violation as v:
+            print("  ==> VIOLATION %s: %s" % (v.monitor, v.msg))
+            print("VIOLATION property=C10 replay=(this file)")
+            return 1
+        print("replay: no violation on this tree")
+        return 0
     if payload.get("engine") == "M":
         from ._m import replay_generic
         return replay_generic(payload, m_factory)
